@@ -11,6 +11,7 @@ import (
 	"math/big"
 	"reflect"
 	"sort"
+	"sync/atomic"
 	"unicode/utf8"
 
 	"github.com/blues/jsonata-go/jtypes"
@@ -107,7 +108,16 @@ var typeCallable = reflect.TypeOf((*jtypes.Callable)(nil)).Elem()
 
 // project maps a value returned by Eval (or held by the caller) to the spec domain.
 // Anything that is not JSON-representable is an error (C10).
+// projDepth guards the projection against values that contain themselves (a result that is not a
+// finite JSON value is reported as such instead of never finishing)
+var projDepth int32
+
 func project(v interface{}) (M, error) {
+	atomic.AddInt32(&projDepth, 1)
+	defer atomic.AddInt32(&projDepth, -1)
+	if atomic.LoadInt32(&projDepth) > 400 {
+		return nil, &projErr{"cyclic or deeper than 400 levels"}
+	}
 	if v == nil {
 		return M{"t": "null"}, nil
 	}
